@@ -178,7 +178,12 @@ def _canon_spec_effect(sp: Printer, kind: str, src: str) -> str:
     st = ast.parse(src).body[0]
     if kind == "aug":
         assert isinstance(st, ast.AugAssign)
-        return sp.show(ast.AugAssign(target=st.target, op=st.op, value=st.value))
+        import copy as _copy
+        cur = _copy.deepcopy(st.target)
+        for n in ast.walk(cur):
+            if hasattr(n, "ctx"):
+                n.ctx = ast.Load()  # type: ignore[attr-defined]
+        return sp.show(ast.Assign(targets=[st.target], value=ast.BinOp(left=cur, op=st.op, right=st.value)))
     if kind == "store":
         assert isinstance(st, ast.Assign)
         return sp.show(ast.Assign(targets=[st.targets[0]], value=st.value))
@@ -243,7 +248,7 @@ def datapath_rule(ctx: Ctx, rid: str, fields_only: dict | None = None, section: 
                 continue
             want = _canon_spec_effect(sp, kind, src)
             wcond = _canon_spec_cond(sp, cond.replace("GUARD", spec["guard"]))
-            same = [e for e in fl.effects if e.kind == kind and fl.canon(e.expr) == want]
+            same = [e for e in fl.effects if e.kind == ("store" if kind == "aug" else kind) and fl.canon(e.expr) == want]
             ok = len(same) == 1 and fl.canon_cond(same[0].cond) == wcond
             where = same[0].node if same else None
             if not same:
